@@ -151,6 +151,9 @@ func (g *Gen) instrAlloc(f *Frame, i *ssa.Alloc) {
 	loc := g.cellLoc(r, el)
 	g.write(f.st, loc, g.d.zero(el))
 	g.setVal(f, i, r)
+	if isPrivateAlloc(i) {
+		f.private = append(f.private, privCell{i, loc.comp, f.vals[i].S})
+	}
 }
 
 func (g *Gen) instrFieldAddr(f *Frame, i *ssa.FieldAddr) {
@@ -209,6 +212,7 @@ func (g *Gen) instrUnOp(f *Frame, i *ssa.UnOp) {
 	case token.MUL: // load
 		el := ptrElem(i.X.Type())
 		if l, ok := f.locs[i.X]; ok {
+			g.nextBound = g.boundOf(f.st, l.comp)
 			g.setVal(f, i, g.loadLoc(f, l))
 			return
 		}
@@ -227,6 +231,7 @@ func (g *Gen) instrUnOp(f *Frame, i *ssa.UnOp) {
 			return
 		}
 		l := g.cellLoc(x.S, el)
+		g.nextBound = g.boundOf(f.st, l.comp)
 		g.setVal(f, i, g.read(f.st, l))
 		if ci, ok := g.cellFn[g.get(f.st, l.comp)+"|"+x.S]; ok {
 			if g.closures == nil {
@@ -389,6 +394,13 @@ func (g *Gen) instrBinOp(f *Frame, i *ssa.BinOp) {
 			r = fmt.Sprintf("(not (= %s %s))", x.S, y.S)
 		default:
 			unsupp("binop %s on %s", i.Op, srt)
+		}
+		if srt == "Iface" {
+			// a nil interface is any value with tag 0
+			r = fmt.Sprintf("(or (and (= (i_tag %[1]s) 0) (= (i_tag %[2]s) 0)) (= %[1]s %[2]s))", x.S, y.S)
+			if i.Op == token.NEQ {
+				r = not(r)
+			}
 		}
 		if srt == "Slice" {
 			// only comparison with nil is legal
@@ -628,7 +640,7 @@ func (g *Gen) instrLookup(f *Frame, i *ssa.Lookup) {
 			vs := g.d.sortOf(xt.Elem())
 			vn := g.defFresh(f.name(i)+".v", vs, v)
 			f.tuples[i] = []Term{{vn, vs, xt.Elem()}, {okn, "Bool", types.Typ[types.Bool]}}
-			g.typeFacts(f.en, f.tuples[i][0], f.st, false)
+			g.typeFacts(f.en, f.tuples[i][0], g.now(f.st), false)
 			return
 		}
 		g.setVal(f, i, v)
@@ -694,6 +706,6 @@ func (g *Gen) instrNext(f *Frame, i *ssa.Next) {
 	g.assume(f.en, fmt.Sprintf("(=> %s (and (not (= %s 0)) (select (select %s %s) %s)))", okn, x.S, g.get(f.st, has), x.S, kn))
 	vn := g.defFresh(f.name(i)+".v", vs, fmt.Sprintf("(select (select %s %s) %s)", g.get(f.st, val), x.S, kn))
 	f.tuples[i] = []Term{{okn, "Bool", types.Typ[types.Bool]}, {kn, ks, mt.Key()}, {vn, vs, mt.Elem()}}
-	g.typeFacts(and(f.en, okn), f.tuples[i][1], f.st, true)
-	g.typeFacts(and(f.en, okn), f.tuples[i][2], f.st, true)
+	g.typeFacts(and(f.en, okn), f.tuples[i][1], g.now(f.st), true)
+	g.typeFacts(and(f.en, okn), f.tuples[i][2], g.now(f.st), true)
 }
